@@ -365,6 +365,19 @@ func c04Sessions(seed uint64, thorough bool) []c04session {
 			out = append(out, s)
 		}
 	}
+	// 4. a slow consumer: the handler of a streamed report takes longer than any patience a dispatcher might have; it
+	// still gets its whole payload and the next frames are parsed at their own first byte, after it has returned
+	{
+		s := c04session{name: "slow-handler", handlers: []int{61}}
+		ph := c04phase{}
+		ph.frames = []c04frame{
+			{ver: 1, typ: 61, id: 2001, caller: -1, n: 4000, fill: 3, beh: vbeh{k: 4000, slow: 3300 * time.Millisecond}},
+			{ver: 1, typ: 61, id: 2002, caller: -1, n: 600, fill: 5, beh: vbeh{k: 600}},
+			{ver: 1, typ: 62, id: 2003, caller: -1, n: 0, fill: 0, beh: vbeh{k: 0}},
+		}
+		s.phases = []c04phase{ph}
+		out = append(out, s)
+	}
 	return out
 }
 
